@@ -167,15 +167,22 @@ def unpackBytes (s : PrimSpec) (data : Bytes) : Res (Bytes × Nat) :=
   | .err => .err
   | .panic => .panic
   | .ok (valueLength, prefBytes) =>
+    let announced := valueLength
     let valueLength := match s.packer with
       | .default => valueLength
-      | .track2 => if valueLength % 2 ≠ 0 then valueLength + 1 else valueLength
+      | .track2 => if s.pad ≠ .nil ∧ valueLength % 2 ≠ 0 then valueLength + 1 else valueLength
     if prefBytes > data.length then .panic   -- `packedFieldValue[prefBytes:]`
     else
     match Enc.decode s.enc (data.drop prefBytes) valueLength with
     | .err => .err
     | .panic => .panic
-    | .ok (value, read) => .ok (s.pad.unpad value, read + prefBytes)
+    | .ok (value, read) =>
+      let value := s.pad.unpad value
+      match s.packer with
+      | .default => .ok (value, read + prefBytes)
+      | .track2 =>
+        -- the character that made the length even must have been the pad character
+        if value.length > announced then .err else .ok (value, read + prefBytes)
 
 /-- `SetBytes` of the field kind: canonical value from the raw bytes -/
 def setBytes (s : PrimSpec) (raw : Bytes) : Res Value :=
